@@ -22,7 +22,7 @@ MANIFEST = {
              'explicit or automatic mask, any list of segments valid for their modes whose standard bit length fits) encodes successfully and decodes to the same version, level, mask and '
              'segments - by composing proved components: the stream is the standard\'s and parses back (C16/C17), blocks split/interleave and de-interleave inversely, encoder and decoder walks '
              'visit the same modules (generic walk lemma + kernel-evaluated fuel/length facts for all 40 versions), format information reads back (C11), masking is an involution on data modules '
-             '(C18), clean blocks pass the RS decoder (C14). C01RMQR.lean proves roundtrip_RMQR the same way for all 32 rMQR versions and both levels (the walk skips column 1, so for 11 versions the last codeword is placed incomplete; the proof lets the last codeword read back be arbitrary and uses the decoder completeness theorem of C14 to restore it). C01Micro.lean proves roundtrip_Micro for M1-M4 incl. the 4-bit final data codeword of M1/M3 (skipped stream bits on both sides) under the property's non-emptiness hypothesis. All three symbologies are exercised by differential round trips over every '
+             '(C18), clean blocks pass the RS decoder (C14). C01RMQR.lean proves roundtrip_RMQR the same way for all 32 rMQR versions and both levels (the walk skips column 1, so for 11 versions the last codeword is placed incomplete; the proof lets the last codeword read back be arbitrary and uses the decoder completeness theorem of C14 to restore it). C01Micro.lean proves roundtrip_Micro for M1-M4 incl. the 4-bit final data codeword of M1/M3 (skipped stream bits on both sides) under the non-emptiness hypothesis of the property. All three symbologies are exercised by differential round trips over every '
              '(version, level) pair, masks and structured payloads, on implementation and model.'),
     'note': 'Trusted: Lean kernel; hand-written symbol models tied by correspondence on generated descriptions; ',
 }
